@@ -403,7 +403,7 @@ def plan_read(rng, rest, closing):
         m = rng.choice([0, 1, 2, 5, n, n + 1, rng.randrange(0, n + 2)])
         return ["into", min(m, 600), rng.random() < 0.4]
     if k < 0.68:
-        dl = rng.choice([1, 1, 2, 2, 3])
+        dl = rng.choice([1, 1, 2, 2, 3, 4, 5])
         if n >= dl and rng.random() < 0.8:
             i = rng.randrange(0, min(n - dl, 40) + 1)
             d = rest[i:i + dl]
@@ -543,6 +543,12 @@ def corpus_cases():
         mkcase(4, 4096, [["read", ["until", "\n", 3]], A("abc\n"), ["event", True, False, False, False, False]]),
         # read_into with a saved tail
         mkcase(8, 4096, [A("abcdefgh"), ["read", ["bytes", 1, False]], ["read", ["into", 3, False]], ["read", ["bytes", 4, False]]]),
+        # 4-byte delimiter, 1-byte first delivery, then everything at once (incremental-scan offsets)
+        mkcase(2048, 4096, [["read", ["until", "\r\n\r\n", None]], A("G"), ["event", True, False, False, False, False],
+                            A("ET / HTTP/1.0\r\n\r\nmore\r\n\r\nx"), ["event", True, False, False, False, False],
+                            ["read", ["until", "\r\n\r\n", None]]]),
+        mkcase(2048, 4096, [A("GE"), ["read", ["until", "\r\n\r\n", 12]], A("T /\r\n\r\nbody"),
+                            ["event", True, False, False, False, False], ["read", ["bytes", 4, False]]]),
         # buffer full
         mkcase(4, 8, [["read", ["bytes", 20, False]], A("aaaaaaaaaaaa"), ["event", True, False, False, False, False]]),
     ]
@@ -579,11 +585,73 @@ def exhaustive_small(rng, tier):
     return out
 
 
+LONG_DELIMS = [b"\r\n\r\n", b"\r\n\r\n", b"\r\n.", b"--x", b"\n\n\n", b"END", b"\r\n--b", b"abcab", b"\r\n\r"]
+
+
+def gen_straddle(rng, tier):
+    """read_until with a 3-5 byte delimiter, a tiny first delivery (shorter than len(delimiter)-1, so an
+    unsuccessful scan happens on a buffer shorter than the delimiter), then the rest in one or two large
+    deliveries; the delimiter occurs once or twice, with trailing data; optional max_bytes around the first
+    hit; pipelined follow-up reads."""
+    d = rng.choice(LONG_DELIMS)
+    dl = len(d)
+    filler = lambda n: bytes(rng.choice(b"GET/ xy") for _ in range(n))
+    pre = filler(rng.choice([0, 1, 2, 3, 5, 9, 14]))
+    if rng.random() < 0.25:                      # a partial delimiter inside the prefix
+        k = rng.randrange(1, dl)
+        pre = pre + d[:k] + filler(rng.randrange(1, 3))
+    mid = filler(rng.choice([0, 1, 4, 7]))
+    twice = rng.random() < 0.55
+    tail = filler(rng.choice([0, 1, 3, 6]))
+    data = pre + d + mid + (d if twice else b"") + tail
+    end1 = data.find(d) + dl
+    first = rng.randrange(1, max(2, dl - 1))     # 1 .. dl-2
+    if rng.random() < 0.15:
+        first = rng.choice([dl - 1, dl])         # boundary: the first delivery is just long enough
+    first = min(first, len(data))
+    rest = data[first:]
+    parts = [data[:first]]
+    if len(rest) > 1 and rng.random() < 0.4:
+        cut = rng.randrange(1, len(rest))
+        parts += [rest[:cut], rest[cut:]]
+    elif rest:
+        parts.append(rest)
+    mx = rng.choice([None, None, None, end1, end1 + 1, end1 + rng.randrange(2, 9), end1 - 1, len(data) + 5])
+    chunk = rng.choice([2048, 2048, 64, 64, 4, 3])
+    ev = ["event", True, False, False, False, False]
+    A = lambda x: ["arrive", ["data", s_(x)]]
+    r1 = ["read", ["until", s_(d), mx]]
+    ops = []
+    if rng.random() < 0.5:                       # read pending, then the tiny delivery arrives
+        ops += [r1, A(parts[0]), ev]
+    else:                                        # tiny delivery already in the socket: inline scan
+        ops += [A(parts[0]), r1]
+    joined = rng.random() < 0.35                 # both remaining deliveries visible to one readiness event
+    for i, pt in enumerate(parts[1:]):
+        ops.append(A(pt))
+        if not (joined and i == 0 and len(parts) > 2):
+            ops.append(ev)
+    k = rng.random()                             # pipelined follow-ups
+    if k < 0.4:
+        ops.append(["read", ["until", s_(d), rng.choice([None, None, len(mid) + dl, len(mid) + dl + 3])]])
+    elif k < 0.6:
+        ops.append(["read", ["bytes", rng.choice([1, len(mid), len(mid) + 1]), rng.random() < 0.3]])
+    elif k < 0.75:
+        ops.append(["read", ["regex", RE_POOL[0], None]])
+    if rng.random() < 0.6:
+        ops += [["arrive", ["eof"]], ev, ["read", ["uclose"]]]
+    else:
+        ops.append(["read", ["bytes", max(1, len(tail)), True]])
+    return mkcase(chunk, 4096, ops)
+
+
 def gen_cases(rng, tier):
     out = []
-    n = 380 if tier == "quick" else 2500
+    n = 300 if tier == "quick" else 2500
     for i in range(n):
         out.append(gen_program(rng, tier, wild=(i % 5 == 4)))
+    for i in range(170 if tier == "quick" else 1200):
+        out.append(gen_straddle(rng, tier))
     for i in range(60 if tier == "quick" else 600):
         out.append(soup(rng, rng.randrange(3, 14)))
     out += exhaustive_small(rng, tier)
@@ -622,7 +690,8 @@ def classify(case, obs):
     for op in ops:
         if op[0] == "read":
             yield "read:" + op[1][0] + (":partial" if op[1][0] in ("bytes", "into") and op[1][2] else "") + \
-                (":max" if op[1][0] in ("until", "regex") and op[1][2] is not None else "")
+                (":max" if op[1][0] in ("until", "regex") and op[1][2] is not None else "") + \
+                (":delim>=3" if op[1][0] == "until" and len(op[1][1]) >= 3 else "")
         elif op[0] == "arrive":
             yield "arrive:" + op[1][0] + (":1byte" if op[1][0] == "data" and len(op[1][1]) == 1 else "")
     if isinstance(obs, list):
@@ -668,6 +737,7 @@ ASSUMPTIONS = [
 ]
 RULE = ("adaptive read programs (<= 8 reads: bytes/partial/into/until/regex with and without max_bytes/until_close) over streams up to a few "
         "hundred bytes under arrival patterns all-at-once / 1-byte / read_chunk_size +-1 / doubling / random, ending in EOF, reset, error or nothing; "
+        "read_until with 3-5 byte delimiters (once/twice + trailing data) under tiny-first-delivery-then-bulk arrivals with max_bytes around the hit and pipelined follow-ups; "
         "plus arbitrary op soups and an exhaustive sweep of every arrival split of short streams; distinct by (chunk, max_buffer, op list)")
 LEVEL_TEXT = ("Machine-checked (Coq) proofs over an executable model of BaseIOStream's read path (_find_read_pos, _read_to_buffer(_loop), _try_inline_read, "
               "_handle_read, _consume/_finish_read, read_into's buffer swap, _check_max_bytes, close/_signal_closed, _handle_events) for all operation sequences and "
